@@ -6,7 +6,8 @@
 // op list on shared primitives.  Exactly ONE participant runs at any time; the others are blocked on a
 // semaphore INSIDE a hook.  The PREEMPTION POINTS are
 //   * every lockset callback PHOTON_VERIF_LS(id, obj, l1, l2): spinlock acquire attempt (LS_LOCK_WANT = 3,
-//     repo_patches/E4S-hook-lock-want.diff), acquire (1), release (2, BEFORE the releasing store), and every
+//     repo_patches/E4S-hook-lock-want.diff), acquire (1), release (2, BEFORE the releasing store; LS_LOCK_FREE = 4 AFTER it,
+//     same patch: without it everything up to the next hook would be glued to the release), and every
 //     hooked access (wait-queue push/erase, going to sleep, interrupt/timeout wake-up, mutex CAS and hand-off,
 //     semaphore add/subtract/resume pass, rwlock state change, standby push/drain);
 //   * the start of every scripted op (100 START of a participant, 101 op start);
@@ -32,7 +33,7 @@
 //   schedule keys: mode=pct|rand|rr seed=<n> d=<n> k=<n> q=<percent> pre=<item,item,..> replay=<digits>
 //     pre items:  p      one decision for participant p          p*n    n decisions
 //                 p!     p until it is disabled (idle / waits for a held spinlock)
-//                 p@K    p until it is parked at a point of kind K (hook id); p@K:name = K in 1..3: on the spinlock `name`
+//                 p@K    p until it is parked at a point of kind K (hook id); p@K:name = K in 1..4: on the spinlock `name`
 //                        (m0.sp m0.q s1.sp s1.q c2.q r3.msp r3.mq r3.cq t4 [lock of thread T4] M0 I0 V0.sb), else: while the
 //                        vCPU's CURRENT thread is `name` (4 = T4, M0 = main, I0 = idler)
 // Output: ONE line
@@ -221,7 +222,7 @@ static int choose() {
             SItem& it = s_items[s_item_pos];
             if (it.t == I_UNTIL_DISABLED && !en[it.p]) { s_item_pos++; continue; }
             if (it.t == I_UNTIL_KIND && P[it.p].st == PARKED && P[it.p].kind == it.kind &&
-                (it.lname.empty() || it.lname == (it.kind <= 3 ? std::string(lname(P[it.p].obj)) : tname(P[it.p].cur)))) { s_item_pos++; continue; }
+                (it.lname.empty() || it.lname == (it.kind <= 4 ? std::string(lname(P[it.p].obj)) : tname(P[it.p].cur)))) { s_item_pos++; continue; }
             break;
         }
         if (n == 1) { s_last = only; return only; }
@@ -252,7 +253,7 @@ static void point(int kind, const void* obj) {
     x.kind = kind; x.obj = obj; x.cur = get_current(); x.st = PARKED;
     if (g_want_trace) {
         char buf[96];
-        if (kind < 100) snprintf(buf, sizeof buf, "%s%d:%d:%s", g_trace.empty() ? "" : " ", me, kind, kind <= 3 ? lname(obj) : tname(get_current()).c_str());
+        if (kind < 100) snprintf(buf, sizeof buf, "%s%d:%d:%s", g_trace.empty() ? "" : " ", me, kind, kind <= 4 ? lname(obj) : tname(get_current()).c_str());
         else snprintf(buf, sizeof buf, "%s%d:%d:%s", g_trace.empty() ? "" : " ", me, kind, tname(get_current()).c_str());
         g_trace += buf;
     }
@@ -499,11 +500,12 @@ static void child_main(const std::string& line, int outfd, bool trace) {
     for (;;) pause();            // the finishing participant _exit()s the process
 }
 
-static std::string run_once(const std::string& line, int timeout_ms, bool trace) {
+static std::string run_once1(const std::string& line, int timeout_ms, bool trace) {
     int fds[2];
     if (pipe(fds) < 0) return "PIPEFAIL";
     fflush(stdout);
     pid_t pid = fork();
+    if (pid < 0) { close(fds[0]); close(fds[1]); return "FORKFAIL"; }
     if (pid == 0) {
         close(fds[0]);
         struct rlimit rl = {5, 7};       // a case needs a few ms of CPU; a spinning one is cut here (load-independent)
@@ -529,6 +531,16 @@ static std::string run_once(const std::string& line, int timeout_ms, bool trace)
     if (WIFSIGNALED(status)) return "CRASH(sig" + std::to_string(WTERMSIG(status)) + ") " + out;
     if (out.empty()) return "NOOUTPUT(exit" + std::to_string(WEXITSTATUS(status)) + ")";
     return out;
+}
+// a loaded machine can refuse fork / pthread_create / stack mmap (EAGAIN, ENOMEM): that says nothing about the case -> retry
+static std::string run_once(const std::string& line, int timeout_ms, bool trace) {
+    std::string r;
+    for (int attempt = 0; attempt < 12; attempt++) {
+        r = run_once1(line, timeout_ms, trace);
+        if (r != "FORKFAIL" && r != "PIPEFAIL" && r != "INITFAIL" && r.compare(0, 8, "NOOUTPUT") != 0) return r;
+        usleep(50000 * (attempt + 1));
+    }
+    return r;
 }
 }  // namespace e4s
 
